@@ -1270,6 +1270,26 @@ class Lo(Expr):
         return relocate_lo(value)
 
 
+# an expression as seen from an earlier position: the second instruction of a two-instruction
+# expansion has to see the same position-relative value as the first one
+class Earlier(Expr):
+
+    def __init__(self, expr, distance):
+        self.expr = expr
+        self.distance = distance
+
+    def __repr__(self):
+        s = '{}({!r}, {!r})'
+        s = s.format(type(self).__name__, self.expr, self.distance)
+        return s
+
+    def __str__(self):
+        return str(self.expr)
+
+    def eval(self, position, env, line):
+        return self.expr.eval(position - self.distance, env, line)
+
+
 # base class for assembly "things"
 class Item(abc.ABC):
 
@@ -3029,7 +3049,9 @@ def transform_pseudo_instructions(items, constants, labels):
                 new_items.append(inst)
                 log_conversion('transform_pseudo_instructions', item, inst)
 
-                inst = ITypeInstruction(item.line, 'addi', rd=rd, rs1=rd, imm=Lo(imm))
+                # the ADDI sits 4 bytes after the LUI (a LUI of a position-relative value is never
+                # compressed) but completes the value the LUI started
+                inst = ITypeInstruction(item.line, 'addi', rd=rd, rs1=rd, imm=Lo(Earlier(imm, 4)))
         elif item.name == 'mv':
             rd, rs = item.args
             inst = ITypeInstruction(item.line, 'addi', rd=rd, rs1=rs, imm=Arithmetic('0'))
